@@ -2363,7 +2363,6 @@ def _put_slice_comprehension_ifs(
 
     else:
         fst_body = fst_.a.ifs
-        is_last = stop == len_body
         fst_locabst = _LocationAbstract_comprehension_ifs(fst_body)
 
         put_slice_nosep(self, start, stop, locabst, fst_locabst, fst_,
@@ -2372,14 +2371,14 @@ def _put_slice_comprehension_ifs(
 
         _put_slice_asts(self, start, stop, 'ifs', body, fst_, fst_body)
 
-        if is_last and (parent := self.parent):  # if put last `if` then need to check if joined alnums with potential following `comprehension`
-            parent_body = parent.a.generators  # parent will be of the standard comprehensions (`ListComp`, etc...) or `_comprehensions`, standalone `comprehension` and `_comprehension_ifs` don't have a following `comprehension` to check against
-            next_idx = self.pfield.idx + 1
+    if stop == len_body and (parent := self.parent):  # if put or deleted last `if` then need to check if joined alnums with potential following `comprehension`
+        parent_body = parent.a.generators  # parent will be of the standard comprehensions (`ListComp`, etc...) or `_comprehensions`, standalone `comprehension` and `_comprehension_ifs` don't have a following `comprehension` to check against
+        next_idx = self.pfield.idx + 1
 
-            if next_idx < len(parent_body):  # only if self was not last comprehension in list
-                ln, col, _, _ = parent_body[next_idx].f.loc
+        if next_idx < len(parent_body):  # only if self was not last comprehension in list
+            ln, col, _, _ = parent_body[next_idx].f.loc
 
-                self._fix_joined_alnums(ln, col)
+            self._fix_joined_alnums(ln, col)
 
 
 def _put_slice_arguments(
